@@ -325,7 +325,7 @@ BOUNDED = [
     ("beyond-property-notes", beyond_property_notes),
 ]
 JOB_TIMEOUT = {"quick": 240, "thorough": 1500}
-CATEGORY = "proof"
+CATEGORY = "other"
 TECHNIQUE = ("contract-based deductive verification: pyvc VCs from the real hd.py source (constructors, child, raw_serialize/_serialize, raw_parse "
              "run symbolically through harness compositions) in the discrete-log theory of secp256k1 (z3 + zn_ring), HMAC-SHA512/HASH160 "
              "uninterpreted; string-level functions (traverse, xprv/xpub text, blind_xpub, path predicates) by bounded run-time contract checking "
@@ -354,7 +354,7 @@ EXPLANATION = ("BIP32: HDPrivateKey.child(i) == CKDpriv for every secret, chain 
                "outside 32 bits; raw_parse of the serialisation returns every field for all 20 SLIP-132 versions. Bounded: path strings (traverse == fold "
                "of child over the parsed indices, traverse(a+b) == traverse(a).traverse(b)), text round trips for 20 prefixes x networks, blind_xpub == key "
                "at the combined path, path predicates, BIP32 test vectors 1-5.")
-LEVEL_TEXT = ("Unbounded deductive proof over all secrets/points, chain codes, depths, fingerprints, child numbers, indices and version bytes that child "
+LEVEL_TEXT = ("Mixed, therefore claimed as 'other': unbounded deductive proof over all secrets/points, chain codes, depths, fingerprints, child numbers, indices and version bytes that child "
               "derivation (private and public), their consistency, master key generation and the 78-byte codec equal the independent BIP32/SLIP-132 spec, "
               "in the discrete-log model of the curve; string-level clauses (paths, Base58 text, blinding) bounded only.")
 LEVEL_NOTE = ("assumes the discrete-log model (group law is C03), uninterpreted hashes, A-NEGL for invalid derivations; traverse/xprv()/parse()/blind_xpub "
